@@ -61,7 +61,7 @@ pub fn c13_circular_swap_n4_k2() { circular::<4, 2>() }
 /// @verif anchor=circular_swap bound="length 4, 3 indices; all contents and distinct in-bounds index tuples"
 #[cfg_attr(kani, kani::proof)] #[cfg_attr(kani, kani::unwind(7))]
 pub fn c13_circular_swap_n4_k3() { circular::<4, 3>() }
-/// @verif anchor=circular_swap bound="length 4, 4 indices; all contents and distinct in-bounds index tuples"
+/// @verif anchor=circular_swap tier=thorough bound="length 4, 4 indices; all contents and distinct in-bounds index tuples"
 #[cfg_attr(kani, kani::proof)] #[cfg_attr(kani, kani::unwind(7))]
 pub fn c13_circular_swap_n4_k4() { circular::<4, 4>() }
 /// @verif anchor=circular_swap tier=thorough bound="length 5, 3 indices"
@@ -85,7 +85,26 @@ fn translocate<const N: usize>() {
     vcover!(idx < s);
     vcover!(idx > s && e > s);
 }
-/// @verif anchor=translocate_slice bound="length 4; all contents, ranges and indices"
+fn translocate_single<const N: usize>() {
+    let orig: [u8; N] = sym_arr();
+    let (s, e, idx): (usize, usize, usize) = (sym(), sym(), sym());
+    assume(idx < N && s < N && e < N && s <= e && idx + (e - s) <= N);
+    let mut p1 = orig;
+    translocate_slice(&mut p1, s..e, idx);
+    assert!(is_permutation_of(&p1, &orig), "translocate_slice does not return a permutation of the same elements");
+    for k in 0..N {
+        if k < e - s { assert!(p1[idx + k] == orig[s + k], "translocated slice is not at the requested index"); }
+    }
+    vcover!(idx < s);
+    vcover!(idx > s && e > s);
+}
+/// @verif anchor=translocate_slice bound="length 4; all contents, ranges and indices (in-place implementation alone)"
+#[cfg_attr(kani, kani::proof)] #[cfg_attr(kani, kani::unwind(7))]
+pub fn c13_translocate_single_n4() { translocate_single::<4>() }
+/// @verif anchor=translocate_slice bound="length 3; all contents, ranges and indices; both implementations agree"
+#[cfg_attr(kani, kani::proof)] #[cfg_attr(kani, kani::unwind(6))]
+pub fn c13_translocate_n3() { translocate::<3>() }
+/// @verif anchor=translocate_slice tier=thorough bound="length 4; all contents, ranges and indices; both implementations agree"
 #[cfg_attr(kani, kani::proof)] #[cfg_attr(kani, kani::unwind(7))]
 pub fn c13_translocate_n4() { translocate::<4>() }
 /// @verif anchor=translocate_slice tier=thorough bound="length 5; all contents, ranges and indices"
@@ -142,27 +161,28 @@ pub fn c13_multipoint_n3_k2() { multipoint::<3, 2>() }
 #[cfg_attr(kani, kani::proof)] #[cfg_attr(kani, kani::unwind(7))]
 pub fn c13_multipoint_n4_k3() { multipoint::<4, 3>() }
 
-/// arithmetic crossover: child = alpha * p + (1 - alpha) * q, bit-exactly, for every position
-/// @verif anchor=arithmetic_crossover bound="length 2; all finite values, alphas in [0,1]"
-#[cfg_attr(kani, kani::proof)] #[cfg_attr(kani, kani::unwind(5))]
-pub fn c13_arithmetic_n2() {
-    let mut p1 = [0f64; 2]; let mut p2 = [0f64; 2]; let mut al = [0f64; 2];
-    for i in 0..2 {
-        p1[i] = sym(); p2[i] = sym(); al[i] = sym();
-        assume(p1[i].is_finite() && p2[i].is_finite() && p1[i].abs() <= 1.0e100 && p2[i].abs() <= 1.0e100);
-        assume(al[i] >= 0.0 && al[i] <= 1.0);
-    }
-    let [c1, c2] = arithmetic_crossover(&p1, &p2, &al);
-    assert!(c1.len() == 2 && c2.len() == 2, "child length differs from the parents' length");
-    for i in 0..2 {
-        assert!(c1[i] == al[i] * p1[i] + (1.0 - al[i]) * p2[i], "arithmetic crossover: child1 is not the stated combination");
-        assert!(c2[i] == al[i] * p2[i] + (1.0 - al[i]) * p1[i], "arithmetic crossover: child2 is not the stated combination");
-        // convex: between the parental genes (up to rounding of the two products)
-        let lo = if p1[i] < p2[i] { p1[i] } else { p2[i] };
-        let hi = if p1[i] < p2[i] { p2[i] } else { p1[i] };
-        let t = 4.0 * f64::EPSILON * (if hi.abs() > lo.abs() { hi.abs() } else { lo.abs() });
-        assert!(c1[i] >= lo - t && c1[i] <= hi + t, "arithmetic crossover: child gene outside the parental interval");
-    }
+/// arithmetic crossover, one coordinate (coordinates are independent): child = alpha * p + (1 - alpha) * q, bit-exactly
+/// @verif anchor=arithmetic_crossover bound="length 1 (per coordinate); all f64 values and alphas"
+#[cfg_attr(kani, kani::proof)] #[cfg_attr(kani, kani::unwind(4))]
+pub fn c13_arithmetic_formula() {
+    let (p, q, al): (f64, f64, f64) = (sym(), sym(), sym());
+    let [c1, c2] = arithmetic_crossover(&[p], &[q], &[al]);
+    assert!(c1.len() == 1 && c2.len() == 1, "child length differs from the parents' length");
+    let (e1, e2) = (al * p + (1.0 - al) * q, al * q + (1.0 - al) * p);
+    assert!(c1[0].to_bits() == e1.to_bits() || (c1[0].is_nan() && e1.is_nan()), "arithmetic crossover: child1 is not the stated combination");
+    assert!(c2[0].to_bits() == e2.to_bits() || (c2[0].is_nan() && e2.is_nan()), "arithmetic crossover: child2 is not the stated combination");
+}
+/// convexity: for alpha in [0,1] the child gene lies between the parental genes (up to rounding of the two products)
+/// @verif anchor=arithmetic_crossover tier=thorough bound="length 1; |p|,|q| <= 1e100, alpha in [0,1]"
+#[cfg_attr(kani, kani::proof)] #[cfg_attr(kani, kani::unwind(4))]
+pub fn c13_arithmetic_convex() {
+    let (p, q, al): (f64, f64, f64) = (sym(), sym(), sym());
+    assume(p.is_finite() && q.is_finite() && p.abs() <= 1.0e100 && q.abs() <= 1.0e100 && al >= 0.0 && al <= 1.0);
+    let [c1, _c2] = arithmetic_crossover(&[p], &[q], &[al]);
+    let lo = if p < q { p } else { q };
+    let hi = if p < q { q } else { p };
+    let t = 4.0 * f64::EPSILON * (if hi.abs() > lo.abs() { hi.abs() } else { lo.abs() });
+    assert!(c1[0] >= lo - t && c1[0] <= hi + t, "arithmetic crossover: child gene outside the parental interval");
 }
 
 fn is_perm_of_0n(p: &[u8]) -> bool {
@@ -177,7 +197,7 @@ fn cycle<const N: usize>() {
     gene_conserving(&c1, &c2, &p1, &p2);
     assert!(is_perm_of_0n(&c1) && is_perm_of_0n(&c2), "cycle crossover: a child is not a permutation");
 }
-/// @verif anchor=cycle_crossover bound="permutations of length 3 (all pairs)"
+/// @verif anchor=cycle_crossover tier=thorough bound="permutations of length 3 (all pairs)"
 #[cfg_attr(kani, kani::proof)] #[cfg_attr(kani, kani::unwind(6))]
 pub fn c13_cycle_n3() { cycle::<3>() }
 /// @verif anchor=cycle_crossover tier=thorough bound="permutations of length 4 (all pairs)"
